@@ -30,7 +30,11 @@ Open Scope Z_scope.
 Record cfg := mkCfg { fix2 : bool; fix3 : bool; fix15 : bool }.
 Definition fixed : cfg := mkCfg true true true.
 
-Definition FUEL : nat := 64%nat.
+Definition FUEL : nat := 64%nat.      (* depth of the snapshots the model takes of caption sets *)
+
+(* fuel of the writers' deepcopy: one more than the number of objects in the store - it always suffices on a
+   well-formed store (proofs/DeepcopyFacts.v deepcopy_succeeds), so the Err EOutOfFuel exit of `write` is dead code there *)
+Definition dc_fuel (st : store) : nat := S (length st).
 
 (* pre-existing locations: 0 = the `style={}` default of Caption.__init__, 1 = the `styles={}` default of
    CaptionSet.__init__ (both function-default objects exist from import time on) *)
@@ -534,7 +538,7 @@ Definition write (c : cfg) (k : Z) (o : wopts) (i : winst) (st : store) (s : val
     (* `if caption_set.is_empty(): return output` before the copy *)
     mkWres st i0 (Ok (mkOut [] (snap FUEL st s))) [] 0
   else
-  match deepcopy FUEL st s with
+  match deepcopy (dc_fuel st) st s with
   | None => mkWres st i0 (Err EOutOfFuel) [] 0
   | Some (st1, s1) =>
       let t := snap FUEL st1 s1 in
@@ -578,7 +582,7 @@ Definition write (c : cfg) (k : Z) (o : wopts) (i : winst) (st : store) (s : val
         let (st2, lg) := merge_all st1 s1 [] in
         let (st3, lg3) := single_assign st2 s1 (match wo_pos o with Some pc => pc | None => 0 end) lg in
         (* DFXPWriter.write on the positioned copy: a second deepcopy, then the DFXP assignments *)
-        match deepcopy FUEL st3 s1 with
+        match deepcopy (dc_fuel st3) st3 s1 with
         | None => mkWres st3 i0 (Err EOutOfFuel) lg3 1
         | Some (st4, s2) =>
             let p := make_plan k o (wi_open i0) (wi_last i0) t in
